@@ -743,7 +743,25 @@ def make_resolver(vk_all, jix, vix=None):
         t = hdr[r + 5:].rstrip(" {")
         return mirenc.strip_generics(t).split("::")[-1]
 
-    def resolve(func, nargs, conv=None, promoted=None, named_const=None):
+    def resolve(func, nargs, conv=None, promoted=None, named_const=None, closure=None):
+        if closure is not None:
+            # closure named by its parent path (`Date::iso_week_date::{closure#0}`) or by source location
+            for ix in (vix, jix):
+                if ix is None:
+                    continue
+                mm = re.search(r"(\w+)::(\{closure#\d+\})$", closure)
+                cands = []
+                if mm:
+                    tail = "::%s::%s" % (mm.group(1), mm.group(2))
+                    cands = [c for c in ix.candidates(mm.group(2)) if c[0].endswith(tail)]
+                else:
+                    loc = closure.strip()
+                    for last, lst in ix.by_last.items():
+                        if last.startswith("{closure#"):
+                            cands += [c for c in lst if ("{closure@%s}" % loc) in c[1]]
+                if len(cands) == 1:
+                    return ix.get(cands[0][2])
+            return None
         if named_const is not None:
             for ix in (jix, vix):
                 if ix is None:
